@@ -60,6 +60,57 @@ def isCmp (op : Op) : Bool := op = .lt || op = .gt || op = .lteq || op = .gteq
 def isLogic (op : Op) : Bool := op = .and || op = .or
 def isEq (op : Op) : Bool := op = .eq || op = .neq
 
+/-- the signature of a built-in: what it requires of the static type of each argument (a predicate, so
+that `has` can take a map of anything), of the arguments beyond those (variadic built-ins), and its
+result type -/
+structure BSig where
+  params : List (Ty → Bool)
+  rest : Option (Ty → Bool)
+  ret : Option Ty
+
+def BSig.paramAt (sig : BSig) (i : Nat) : Ty → Bool :=
+  match sig.params[i]? with
+  | some p => p
+  | none => match sig.rest with
+    | some p => p
+    | none => fun _ => false
+
+def isNumT (t : Ty) : Bool := decide (t = .num)
+def isStrT (t : Ty) : Bool := decide (t = .str)
+def isAnyT (t : Ty) : Bool := decide (t = .any)
+def isMapT : Ty → Bool
+  | .map _ => true
+  | _ => false
+def isArrT : Ty → Bool
+  | .arr _ => true
+  | _ => false
+
+/-- the built-ins of the typed fragment (docs/builtins.md): the others are outside it -/
+def builtinSig (name : Str) : Option BSig :=
+  if name = lit "len" then some ⟨[isAnyT], none, some .num⟩
+  else if name = lit "typeof" then some ⟨[isAnyT], none, some .str⟩
+  else if name = lit "has" then some ⟨[isMapT, isStrT], none, some .bool⟩
+  else if name = lit "del" then some ⟨[isMapT, isStrT], none, none⟩
+  else if name = lit "str2bool" then some ⟨[isStrT], none, some .bool⟩
+  else if name = lit "sprint" then some ⟨[], some (fun _ => true), some .str⟩
+  else if name = lit "join" then some ⟨[isArrT, isStrT], none, some .str⟩
+  else if name = lit "startswith" then some ⟨[isStrT, isStrT], none, some .bool⟩
+  else if name = lit "endswith" then some ⟨[isStrT, isStrT], none, some .bool⟩
+  else if name = lit "index" then some ⟨[isStrT, isStrT], none, some .num⟩
+  else if name = lit "exit" then some ⟨[isNumT], none, none⟩
+  else if name = lit "panic" then some ⟨[isStrT], none, none⟩
+  else if name = lit "sleep" then some ⟨[isNumT], none, none⟩
+  else if name = lit "cls" then some ⟨[], none, none⟩
+  else if name = lit "read" then some ⟨[], none, some .str⟩
+  else if name = lit "abs" ∨ name = lit "floor" ∨ name = lit "ceil" ∨ name = lit "round" ∨ name = lit "log" ∨
+      name = lit "sqrt" ∨ name = lit "sin" ∨ name = lit "cos" then some ⟨[isNumT], none, some .num⟩
+  else if name = lit "min" ∨ name = lit "max" ∨ name = lit "pow" ∨ name = lit "atan2" then some ⟨[isNumT, isNumT], none, some .num⟩
+  else if name = lit "upper" ∨ name = lit "lower" then some ⟨[isStrT], none, some .str⟩
+  else if name = lit "trim" then some ⟨[isStrT, isStrT], none, some .str⟩
+  else if name = lit "replace" then some ⟨[isStrT, isStrT, isStrT], none, some .str⟩
+  else if name = lit "str2num" then some ⟨[isStrT], none, some .num⟩
+  else none
+
 /-- the signature of a user-defined function: parameter types and result type (`none`: no result) -/
 structure FSig where
   params : List Ty
@@ -101,14 +152,27 @@ inductive Typed (Φ : FEnv) (G : Env) : Expr F → Ty → Prop
   | dot (l : Expr F) (key : Str) (s : Ty) : Typed Φ G l (.map s) → Typed Φ G (.dot l key) s
   /-- type assertion `e.(t)` on an any -/
   | assert (t : Ty) (e : Expr F) : t ≠ .any → Reg t = true → Typed Φ G e .any → Typed Φ G (.assert t e) t
+  /-- a call of a built-in of the typed fragment that returns a value; `tys` are the static types of the arguments -/
+  | builtin (name : Str) (args : List (Expr F)) (sig : BSig) (tys : List Ty) (t : Ty) : builtinSig name = some sig →
+      sig.ret = some t → sig.params.length ≤ args.length → (sig.rest = none → args.length = sig.params.length) →
+      args.length = tys.length → (∀ (i : Nat) a ta, args[i]? = some a → tys[i]? = some ta → Typed Φ G a ta) →
+      (∀ (i : Nat) ta, tys[i]? = some ta → sig.paramAt i ta = true) → Typed Φ G (.call name args) t
   /-- a call of a user-defined function that returns a value: one argument of the declared type per parameter -/
   | call (name : Str) (args : List (Expr F)) (sig : FSig) (t : Ty) : Φ name = some sig → sig.ret = some t →
       args.length = sig.params.length →
       (∀ (i : Nat) a pt, args[i]? = some a → sig.params[i]? = some pt → Typed Φ G a pt) → Typed Φ G (.call name args) t
 
-/-- the Go library behind `%` answers with one number (the oracle table of the harness does) -/
+/-- library functions that answer with one number / one string -/
+def numFns : List String := ["math.mod", "math.abs", "math.floor", "math.ceil", "math.round", "math.log", "math.sqrt",
+  "math.sin", "math.cos", "math.min", "math.max", "math.pow", "math.atan2"]
+def strFns : List String := ["upper", "lower", "trim", "replace"]
+
+/-- the Go library behind `%`, the math and the string built-ins answers with a value of the expected
+kind (the oracle table of the harness does: it is filled by calling the real library) -/
 def ExtOk (ext : Ext F) : Prop :=
-  ∀ args r, ext.call "math.mod" args = some r → ∃ v, r = [XArg.num v]
+  (∀ f, f ∈ numFns → ∀ args r, ext.call f args = some r → ∃ v, r = [XArg.num v]) ∧
+  (∀ f, f ∈ strFns → ∀ args r, ext.call f args = some r → ∃ s, r = [XArg.str s]) ∧
+  (∀ args r, ext.call "parsefloat" args = some r → ∃ n b, r = [XArg.num n, XArg.bool b])
 
 /-! ### statements -/
 
@@ -184,6 +248,11 @@ inductive STyped (Φ : FEnv) (Gg : Env) (ρ : Option Ty) : List SEnv → Stmt F 
       (∀ n, lv = some n → n ≠ underscore) → Typed Φ (lookupG Gs Gg) e (.map s) →
       BTyped Φ Gg ρ ([] :: loopScope lv .str :: Gs) body →
       STyped Φ Gg ρ Gs (.forS lv lvTy (.over e) body) Gs
+  /-- a call of a built-in of the typed fragment as a statement -/
+  | callBi (Gs : List SEnv) (name : Str) (args : List (Expr F)) (sig : BSig) (tys : List Ty) : builtinSig name = some sig →
+      sig.params.length ≤ args.length → (sig.rest = none → args.length = sig.params.length) →
+      args.length = tys.length → (∀ (i : Nat) a ta, args[i]? = some a → tys[i]? = some ta → Typed Φ (lookupG Gs Gg) a ta) →
+      (∀ (i : Nat) ta, tys[i]? = some ta → sig.paramAt i ta = true) → STyped Φ Gg ρ Gs (.callS (.call name args)) Gs
   /-- a call of a user-defined function as a statement (a result is dropped) -/
   | callFn (Gs : List SEnv) (name : Str) (args : List (Expr F)) (sig : FSig) : Φ name = some sig →
       args.length = sig.params.length →
@@ -243,5 +312,9 @@ structure ProgOk (Φ : FEnv) (Gg : Env) (prog : Program F) : Prop where
     fd.variadic = none ∧ fd.params.length = sig.params.length ∧
     BTyped Φ Gg sig.ret [paramScope fd.params sig.params []] fd.body ∧
     (∀ t, sig.ret = some t → blockTerms fd.body = true ∧ fnOkB false fd.body = true)
+
+/-- the built-in globals err and errmsg have their documented types, if the program mentions them -/
+def GgOk (Gg : Env) : Prop :=
+  (∀ t, Gg (lit "err") = some t → t = .bool) ∧ (∀ t, Gg (lit "errmsg") = some t → t = .str)
 
 end EvyV.TS
